@@ -103,6 +103,19 @@ def echelon_case(g, budget):
     return g.case("echelonize_m4ri", lines, op="echelonize_m4ri", shape=(nr, nc), kinds=(ka,), full=full, k=k)
 
 
+def echelon_tables_case(g, t):
+    """aimed at the row loops of mzd_process_rows / _rows2 .. _rows6 (each an omp-for with schedule(static,512)): dense
+    full-column-rank input whose LAST strip holds between (t-1)k+1 and tk pivots, i.e. is eliminated with t tables, and
+    more than 1024 rows, so that the chunk boundaries 512, 1024 lie inside one call"""
+    k = g.rng.choice([3, 4, 5, 6, 7])
+    nc = 6 * k * g.rng.choice([1, 2, 3]) + (t - 1) * k + g.rng.randint(1, k)
+    nr = g.rng.choice([1030, 1100, 1400, 1537])
+    ra, ka = g.rows(nr, nc, "dense")
+    full = g.rng.getrandbits(1)
+    lines = [g.mat_line("A", nr, nc, ra), "call echelonize_m4ri A %d %d" % (full, k), "dump A"]
+    return g.case("echelonize_m4ri", lines, op="echelonize_m4ri", shape=(nr, nc), kinds=(ka, "tables=%d" % t), full=full, k=k)
+
+
 def make_cases(seed, tier):
     g = gen.G(seed)
     n_prod, n_ech = (8, 12) if tier == "quick" else (40, 60)
@@ -115,6 +128,9 @@ def make_cases(seed, tier):
             cs.append(product_case(g, route, budget))
     for _ in range(n_ech):
         cs.append(echelon_case(g, budget))
+    for rep in range(1 if tier == "quick" else 4):
+        for t in range(1, 7):
+            cs.append(echelon_tables_case(g, t))
     return cs
 
 
